@@ -985,6 +985,16 @@ def instances(name, tier):
         c.relations = True
         out.append(c)
         return out
+    if name == "relids":
+        # (C04 only) integer qubit ids that are not their own position (1, 0): the Local channel starts on
+        # the atom whose id is the falsy 0 (an encoder that tests the id's truth value loses the target).
+        # The decoded sequence is read by position, since the document names qubits by strings.
+        c = core(2 if quick else 3)
+        c.devs[0]["intids"] = True
+        c.calls[2] = dict(c.calls[2], it=2)
+        c.name = f"rel_core-intids-d{c.max_depth}"
+        c.relations = True
+        return [c]
     if name == "mappable":
         c = mappable(3 if quick else 4)
         c.name = f"mappable-d{c.max_depth}"
@@ -1112,7 +1122,7 @@ def by_tag(tag):
         raise KeyError(tag)
     if tag.startswith("rel_"):
         for tier in ("quick", "thorough"):
-            for c in instances("rel", tier):
+            for c in instances("rel", tier) + instances("relids", tier):
                 if c.name == tag:
                     return c
         raise KeyError(tag)
